@@ -15,8 +15,8 @@ func (s *Server) cmdOUTPUT(msg *Message) (resp.Value, error) {
 	switch len(args) {
 	case 1:
 		if msg.OutputType == JSON {
-			return resp.StringValue(`{"ok":true,"output":"json","elapsed":` +
-				time.Since(start).String() + `}`), nil
+			return resp.StringValue(`{"ok":true,"output":"json","elapsed":"` +
+				time.Since(start).String() + `"}`), nil
 		}
 		return resp.StringValue("resp"), nil
 	case 2:
